@@ -2,6 +2,7 @@ package main
 
 import (
 	"fmt"
+	"go/token"
 	"go/types"
 	"strings"
 
@@ -239,7 +240,7 @@ func complitFields(fa *FuncAnalysis, a *ssa.Alloc) map[string]*Term {
 func loopPhiOf(t *Term) *ssa.Phi {
 	var phi *ssa.Phi
 	t.Walk(func(x *Term) {
-		if x.Op == "phi" && strings.HasPrefix(x.Name, "rangeindex") && phi == nil {
+		if x.Op == "phi" && phi == nil && isLoopIndexPhi(x) {
 			phi, _ = x.Instr.(*ssa.Phi)
 		}
 	})
@@ -250,7 +251,7 @@ func loopPhiOf(t *Term) *ssa.Phi {
 func innermostLoopPhi(t *Term) *ssa.Phi {
 	var phis []*ssa.Phi
 	t.Walk(func(x *Term) {
-		if x.Op == "phi" && strings.HasPrefix(x.Name, "rangeindex") {
+		if x.Op == "phi" && isLoopIndexPhi(x) {
 			if p, ok := x.Instr.(*ssa.Phi); ok {
 				phis = append(phis, p)
 			}
@@ -394,4 +395,44 @@ func containsInstr(xs []ssa.Instruction, x ssa.Instruction) bool {
 		}
 	}
 	return false
+}
+
+// isLoopIndexPhi: the phi is the index of a counting loop - the hidden index of `for .. range slice`, or the variable
+// of an explicit `for i := c; i < n; i++`: an integer phi of a loop header with one constant incoming value and one
+// incoming value phi+1 (the loop shape is recognised, not the name go/ssa gives the variable).
+func isLoopIndexPhi(x *Term) bool {
+	p, ok := x.Instr.(*ssa.Phi)
+	if !ok || len(p.Edges) < 2 {
+		return false
+	}
+	if b, ok := p.Type().Underlying().(*types.Basic); !ok || b.Info()&types.IsInteger == 0 {
+		return false
+	}
+	isHeader := false
+	for _, pr := range p.Block().Preds {
+		if p.Block().Dominates(pr) {
+			isHeader = true
+		}
+	}
+	if !isHeader {
+		return false
+	}
+	// every incoming value is the start constant or phi+1 (a `continue` adds further edges carrying phi+1)
+	hasConst, hasInc := false, false
+	for _, ed := range p.Edges {
+		switch v := ed.(type) {
+		case *ssa.Const:
+			hasConst = true
+			continue
+		case *ssa.BinOp:
+			if v.Op == token.ADD {
+				if c, ok := v.Y.(*ssa.Const); ok && v.X == ssa.Value(p) && c.Value != nil && c.Value.String() == "1" {
+					hasInc = true
+					continue
+				}
+			}
+		}
+		return false
+	}
+	return hasConst && hasInc
 }
